@@ -761,7 +761,7 @@ func (e *Env) call(n *SCall) *Val {
 				return &Val{T: tBool, S: "true"}
 			}
 			qn := fmt.Sprintf("q_un_%d", e.depth)
-			return &Val{T: tBool, S: fmt.Sprintf("(forall ((%s Int)) (! (=> (and (< 0 %s) (< %s %s) (not (and (<= (sptr %s) %s) (< %s (+ (sptr %s) (slen %s)))))) (= (select %s %s) (select %s %s))) :pattern ((select %s %s)) :pattern ((select %s %s))))",
+			return &Val{T: tBool, S: fmt.Sprintf("(forall ((%s Int)) (! (=> (and (< 0 %s) (< %s %s) (not (and (<= (sptr %s) %s) (< %s (+ (sptr %s) (scap %s)))))) (= (select %s %s) (select %s %s))) :pattern ((select %s %s)) :pattern ((select %s %s))))",
 				qn, qn, qn, e.pre.alloc, sv.S, qn, qn, sv.S, sv.S, h1, qn, h0, qn, h1, qn, h0, qn)}
 		}
 		if !need(1) {
